@@ -129,3 +129,35 @@ Example ex_agree :
 Proof.
   destruct ex_in_scope as (H1 & H2 & H3). exact (nav_programs_agree _ _ _ _ H1 H2 H3).
 Qed.
+
+(* Non-vacuity of nav_simulation: on ex_doc the DOM position "attribute 2 (a:k) of the root
+   element" and the IDR path [2; 0] (third child of the first child of the document node) are
+   related; the simulation then gives, e.g., the same Value and a refused MoveToChild. *)
+Example ex_nav_rel :
+  nav_rel ex_doc (mkDNav [] [0] (Some 2)) (mkINav [] [2; 0]).
+Proof.
+  split; simpl.
+  - constructor.
+  - exists [0], (D DElem (hx "72") [] []
+       [mkAttr (hx "786d6c6e73") (hx "61") [] (hx "75"); mkAttr [] (hx "6b") [] (hx "31");
+        mkAttr (hx "61") (hx "6b") (hx "75") (hx "32")]
+       [D DText (hx "74") [] [] [] [];
+        D DElem (hx "78") (hx "61") (hx "75") [mkAttr [] (hx "6964") [] (hx "37")]
+          [D DText (hx "696e") [] [] [] []];
+        D DElem (hx "79") [] [] [] []]).
+    repeat split.
+    + apply (pr_child ex_doc [] [] ex_doc 0); [constructor|reflexivity|simpl; auto].
+    + simpl. auto.
+Qed.
+
+(* Non-vacuity of nav_programs_agree_repaired: Q2 itself (attribute, MoveToRoot, MoveToChild)
+   and Q1 (Value of the document node) on <r k="1">t<x/></r>. *)
+Example ex_repaired_q2 :
+  run_dom true q_doc q2_prog (d_init []) = Some true /\
+  run_idr (to_idr q_doc) q2_prog (i_init (to_ipath q_doc [])) = Some true.
+Proof. split; vm_compute; reflexivity. Qed.
+
+Example ex_repaired_q1 :
+  run_dom true q_doc q1_prog (d_init []) = Some (VStr (hx "74")) /\
+  run_idr (to_idr q_doc) q1_prog (i_init (to_ipath q_doc [])) = Some (VStr (hx "74")).
+Proof. split; vm_compute; reflexivity. Qed.
